@@ -163,6 +163,17 @@ def hostile_payloads() -> List[tuple]:
                   [{"processor": 'template:"{mixed}-{tup}-{sur}":label'}],
                   [{"processor": 'template:"{nan}/{inf}":label'}, {"processor": "FloatMultiplyOperation", "parameters": {"factor": float("inf")}}],
                   [{"processor": "FloatCollectValueProbe", "context_key": "a"}, {"processor": "VBoomOperation"}]]       # reads the awkward values as parameters
+    # sweeps over values that are not JSON types: what YAML itself yields for an unquoted date / timestamp / !!binary,
+    # and what the Python API allows (tuples, complex numbers, sets)
+    import datetime as _dt
+    import decimal as _dec
+    for vals in ([_dt.date(2026, 1, 1), _dt.date(2026, 1, 2)], [_dt.datetime(2026, 1, 1, 12, 0)], [b"\x00\xff", b"a"], [(1, 2), (3, 4)],
+                 [1j, 2.0], [frozenset({1})], [_dec.Decimal("1.5")]):
+        nodes_list.append([{"processor": "FloatMultiplyOperation",
+                            "derive": {"parameter_sweep": {"parameters": {"factor": "2.0 if d else 3.0"}, "variables": {"d": {"values": vals}},
+                                                           "collection": "FloatDataCollection"}}}])
+    nodes_list.append([{"processor": "VPairProbe", "context_key": "res",
+                        "derive": {"parameter_sweep": {"parameters": {"a": "1.0 if d else 0.0"}, "variables": {"d": {"values": [_dt.date(2026, 1, 1)]}}}}}])
     for nodes in nodes_list:
         for detail in ["hash", "repr", "context", "all"]:
             def payload():
